@@ -77,6 +77,8 @@ class sx_int(metaclass=_ShadowMeta):
         if not a:
             return builtins.int(*a, **k)
         x = a[0]
+        if isinstance(x, (SymInt, SymBool)) and (len(a) > 1 or 'base' in k):
+            raise TypeError("int() can't convert non-string with explicit base")
         if isinstance(x, SymInt):
             return x
         if isinstance(x, SymBool):
@@ -283,4 +285,5 @@ SHADOW_BUILTINS = {
     'hex': sx_hex,
     '__sx_mod__': text.sx_mod,
     '__sx_join__': text.sx_join,
+    '__sx_fstr__': text.sx_fstr,
 }
